@@ -174,6 +174,7 @@ Step(e) ==
       effPin == (IsPinOp(e) /\ PinSucceeded(e) /\ ~RootPinned(prev, e.f))
                 \/ (e.op = "upload" /\ e.pin /\ e.ok /\ ~RootPinned(prev, e.f))
       info == [evicted |-> IF e.op = "gc" THEN SetToSeq(Evicted(e)) ELSE <<>>,
+               upevicted |-> IF e.op = "gc" THEN SetToSeq(Evicted(e) \cap upFiles) ELSE <<>>,
                lost |-> SetToSeq(Data(prev) \ Data(e.st))]
   IN /\ bad' = IF cs = <<>> THEN bad ELSE Append(bad, BadRecI(l, e, cs, info))
      /\ notes' = IF ns = <<>> \/ Len(notes) >= 20 THEN notes ELSE Append(notes, [line |-> l, scn |-> e.scn, notes |-> ns])
